@@ -692,3 +692,35 @@ func VerifLemma_C06E_NormalizeIgnoreRoots() {
 		}
 	}
 }
+
+// ---- C06-A (union): two ignore_only keys compose as a union per live rule ----
+
+// VerifLemma_C06A_IgnoreOnlyUnion: ignore_only with TWO keys (each any known rule, deprecated rule, category or
+// deprecated category of the universe; distinct) mapped to different directories d1 and d2. For every live rule r the
+// resulting per-rule ignore roots contain d1 iff the first key covers r and d2 iff the second key covers r: the
+// suppression sets of several keys that resolve to the same rule (a deprecated ID next to its replacement, a rule next
+// to its category) are united, none overwrites the other. Map iteration order is nondeterministic natively; the
+// assertion is order-free.
+func VerifLemma_C06A_IgnoreOnlyUnion() {
+	k1 := lvAllIDs[verifNondetChoice(len(lvAllIDs))]
+	k2 := lvAllIDs[verifNondetChoice(len(lvAllIDs))]
+	verifAssume(k1 != k2)
+	ignoreOnly := map[string][]string{k1: {"d1"}, k2: {"d2", "d3"}}
+	rules, cats := lvUniverse()
+	cfg, err := newRulesConfig(nil, nil, nil, ignoreOnly, rules, cats, check.RuleTypeLint, nil)
+	verifCover("configured")
+	verifAssert(err == nil, "known ignore_only keys are accepted")
+	if err != nil {
+		return
+	}
+	for _, r := range lvLive {
+		_, got1 := cfg.IgnoreRuleIDToRootPaths[r]["d1"]
+		_, got2 := cfg.IgnoreRuleIDToRootPaths[r]["d2"]
+		_, got3 := cfg.IgnoreRuleIDToRootPaths[r]["d3"]
+		verifAssert(got1 == lvCovers(k1, r), "two ignore_only keys: the first key's directory lands on exactly the live rules it covers")
+		verifAssert(got2 == lvCovers(k2, r), "two ignore_only keys: the second key's directory lands on exactly the live rules it covers")
+		verifAssert(got3 == got2, "two ignore_only keys: all directories of a key travel together")
+	}
+	_, dep := cfg.IgnoreRuleIDToRootPaths["R3"]
+	verifAssert(!dep, "two ignore_only keys: no entry is left under a deprecated rule ID")
+}
